@@ -1608,6 +1608,15 @@ func suiteC15(s *Shard, n int) {
 			for k := 0; k < 14; k++ {
 				smp = append(smp, image.Pt((r.Intn(13)-4)*[]int{8, 4, 2, 1}[r.Intn(4)], 0))
 			}
+			for _, c := range cs {
+				if c.Name == "nreg" && c.Adj == 6 && c.F[0] == 1.0/(1<<32) {
+					// the far variant: pixels k·2^28 have offsets k/16
+					smp = smp[:0]
+					for k := 0; k < 14; k++ {
+						smp = append(smp, image.Pt((r.Intn(15)-7)<<28, 0))
+					}
+				}
+			}
 		}
 		cs = r.Retarget(cs, rect, 25)
 		obs, _ := s.emitRen(rect, smp, cs)
@@ -1628,6 +1637,11 @@ func gridGradient(r *RNG) []Call {
 	cs := []Call{{Name: "reset", VB: vb, Pal: ivg.DefaultPalette}}
 	nStops := 2 + r.Intn(4)
 	offs := [][]float32{{0, 1}, {0, 0.5, 1}, {0.25, 0.5, 0.75, 1}, {0, 0.25, 0.5, 0.75, 1}, {0.25, 0.75}}[r.Intn(5)]
+	variant := r.Intn(6) // 0: two stops one float32 step apart (2^-25); 1: the same offsets seen a gigapixel away
+	if variant == 0 {
+		lo := []float32{0.25, 0.375, 0.125}[r.Intn(3)]
+		offs = []float32{lo, bits(math.Float32bits(lo) + 1), 0.75}
+	}
 	nStops = len(offs)
 	cs = append(cs, Call{Name: "csel", U8: 10}, Call{Name: "nsel", U8: 10})
 	for _, o := range offs {
@@ -1638,6 +1652,14 @@ func gridGradient(r *RNG) []Call {
 	m := []float32{0.125, 0, -0.0625, 0, 0.125, -0.0625} // a b c d e f
 	if r.Bool() {
 		m[0], m[2] = -0.125, 0.0625 // mirrored: offsets -px/8
+	}
+	if variant == 0 {
+		// shift by one float32 step of the lower stop so that a pixel lands exactly on the upper one
+		m[0], m[2] = 0.125, -0.0625+(offs[1]-offs[0])
+	}
+	if variant == 1 {
+		// offsets px·2^-32: ordinary offsets at pixels around ±2^30
+		m[0], m[2] = 1.0/(1<<32), -1.0/(1<<33)
 	}
 	for i := 0; i < 6; i++ {
 		cs = append(cs, Call{Name: "nreg", Adj: uint8(6 - i), F: fl(m[i])})
@@ -1674,6 +1696,27 @@ func suiteC17(s *Shard, n int) {
 			}
 			if RunEnc(ab) != obsAB {
 				s.Fail("C17.deterministic", lineAB, "same calls, different output")
+			}
+			if r.Chance(30) {
+				// a fresh zero-value Encoder with the exported resolution flag set before its first call, against a
+				// used one that was Reset to the default metadata and given the same flag: same program, same bytes
+				prog := r.Program(ProgOpts{Wild: r.Bool(), Arcs: true, Reset: 0, MaxPaths: 2, Histories: r.Bool()})
+				fresh := append([]Call{{Name: "hires", B: true}}, prog...)
+				used := append(append(append([]Call{}, a...), Call{Name: "reset", VB: ivg.DefaultViewBox, Pal: ivg.DefaultPalette}, Call{Name: "hires", B: true}), prog...)
+				lineU := EncCase(used)
+				oF, oU := RunEnc(fresh), s.EmitRun(lineU)
+				fF, fU := strings.Fields(oF), strings.Fields(oU)
+				// LOD() of a never-Reset Encoder is a documented deviation (0,0 instead of 0,+Inf): leave those reads out
+				same := len(fU) >= len(fF)
+				for k := 0; same && k < len(fF); k++ {
+					x, y := fF[len(fF)-1-k], fU[len(fU)-1-k]
+					if x != y && !(strings.HasPrefix(x, "lod=") && strings.HasPrefix(y, "lod=")) {
+						same = false
+					}
+				}
+				if !same {
+					s.Fail("C17.zero-value-as-reset", lineU, "a zero-value Encoder with HighResolutionCoordinates set before its first call encodes the program differently from a used Encoder reset to the default metadata with the same flag")
+				}
 			}
 			var e encode.Encoder
 			for _, c := range b {
